@@ -6,13 +6,14 @@
 (* (3) per-sweep numbers (scaled integers) and measured verdicts must satisfy the relations of the property.                             *)
 EXTENDS Sweeps, Json, IOUtils
 Traces == ndJsonDeserialize(IOEnv.TRACE_FILE)
-VARIABLES tid, l
+VARIABLES tid, l, st, p
 Ev == Traces[tid].ev
 Abs(x) == IF x < 0 THEN -x ELSE x
 AllV(v) == \A k \in DOMAIN v : v[k] = TRUE
 M0 == << <<"measure", -1, 0>> >>
 NoW(q) == SelectSeq(q, LAMBDA x : x[1] # "write")          \* site writes are inferred from content in the recording; compare cache events only
-Expected(e) == IF e.interleave_measure      \* dmrg_: energy measured after setup and after every sweep
+Expected(e) == IF e.methods = <<"tdvp12run">> THEN Setup(e.N) \o NoW(Cache(Multi12(e.N, e.nsweeps, e.decisions[1]))) \o e.tail
+               ELSE IF e.interleave_measure      \* dmrg_: energy measured after setup and after every sweep
                THEN Setup(e.N) \o M0 \o Cat([k \in 1..Len(e.methods) |-> NoW(Cache(Schedule(e.N, e.methods[k], e.decisions[k]))) \o M0])
                ELSE Setup(e.N) \o Cat([k \in 1..Len(e.methods) |-> NoW(Cache(Schedule(e.N, e.methods[k], e.decisions[k])))]) \o e.tail
 Ok(e) == CASE e.op = "coherence" -> Run(Init0(e.N), e.events, e.pre, 1).bad = <<>>
@@ -31,9 +32,20 @@ Why(e) == CASE e.op = "coherence" -> <<"environment cache", e.what, Run(Init0(e.
                                       "observed length", Len(e.cache), "expected length", Len(Expected(e))>>
             [] e.op = "dmrg_sweep" -> <<"dmrg sweep", e.what, "E", e.E, "Edense", e.Edense, "E0", e.E0, "Eprev", e.Eprev, "monotone", e.monotone, e.verdicts>>
             [] e.op = "tdvp_snapshot" -> <<"tdvp snapshot", e.what, e.ti, e.ti_expected, e.steps_ok, e.verdicts>>
-Init == tid \in 1..Len(Traces) /\ l = 1
-Step == l \in 1..Len(Ev) /\ (Ok(Ev[l]) = TRUE) /\ l' = l + 1 /\ UNCHANGED tid
-Fail == l \in 1..Len(Ev) /\ ~Ok(Ev[l]) /\ PrintT(<<"REJECT", tid, l, ToString(Why(Ev[l]))>>) /\ l' = l + 1 /\ UNCHANGED tid
-Done == l = Len(Ev) + 1 /\ PrintT(<<"ACCEPT", tid>>) /\ l' = -1 /\ UNCHANGED tid
-Next == Step \/ Fail \/ Done
+(* a coherence event is replayed through EnvCoherence in chunks of at most Chunk cache events per TLC step (st = cache state so far, p = events consumed), *)
+(* so that a recording of thousands of events neither nests deeply nor is re-run for the diagnosis                                                          *)
+Chunk == 150
+IsCoh == l \in 1..Len(Ev) /\ Ev[l].op = "coherence"
+Cur == IF p = 0 THEN Init0(Ev[l].N) ELSE st
+Hi == IF p + Chunk < Len(Ev[l].events) THEN p + Chunk ELSE Len(Ev[l].events)
+Nxt == RunRange(Cur, Ev[l].events, Ev[l].pre, p + 1, Hi)
+Init == tid \in 1..Len(Traces) /\ l = 1 /\ st = <<>> /\ p = 0
+CohMore == IsCoh /\ Hi < Len(Ev[l].events) /\ st' = Nxt /\ p' = Hi /\ UNCHANGED <<tid, l>>
+CohEnd == /\ IsCoh /\ Hi = Len(Ev[l].events)
+          /\ IF Nxt.bad = <<>> THEN TRUE ELSE PrintT(<<"REJECT", tid, l, ToString(<<"environment cache", Ev[l].what, Nxt.bad>>)>>)
+          /\ st' = <<>> /\ p' = 0 /\ l' = l + 1 /\ UNCHANGED tid
+Step == l \in 1..Len(Ev) /\ ~IsCoh /\ (Ok(Ev[l]) = TRUE) /\ l' = l + 1 /\ UNCHANGED <<tid, st, p>>
+Fail == l \in 1..Len(Ev) /\ ~IsCoh /\ ~Ok(Ev[l]) /\ PrintT(<<"REJECT", tid, l, ToString(Why(Ev[l]))>>) /\ l' = l + 1 /\ UNCHANGED <<tid, st, p>>
+Done == l = Len(Ev) + 1 /\ PrintT(<<"ACCEPT", tid>>) /\ l' = -1 /\ UNCHANGED <<tid, st, p>>
+Next == CohMore \/ CohEnd \/ Step \/ Fail \/ Done
 =============================================================================
